@@ -35,6 +35,7 @@ CONTRACT_MODULES = [
     "contracts.classifiers",
     "contracts.retry_after",
     "contracts.state",
+    "contracts.sleepaction",
     "contracts.runners",
     "contracts.policy",
     "contracts.forwarding",
@@ -56,8 +57,19 @@ def load_tasks():
     return tasks
 
 
+def _frontier(args):
+    mod, name, depth = args
+    from pyvc.interp import Interp
+    m = importlib.import_module(mod)
+    task = [t for t in m.TASKS if t.name == name][0]
+    it = Interp()
+    h = task.setup(it)
+    return it.frontier(h, depth)
+
+
 def _run_task(args):
-    mod, name, tier, seed = args
+    mod, name, tier, seed = args[:4]
+    prefixes = args[4] if len(args) > 4 else None
     from pyvc.interp import Interp
     t0 = time.time()
     try:
@@ -69,7 +81,7 @@ def _run_task(args):
         it.tier = tier
         it.seed = seed
         h = task.setup(it)
-        res = it.run(h, name, time_limit=getattr(task, "time_limit", 1500))
+        res = it.run(h, name, time_limit=getattr(task, "time_limit", 1500), prefixes=prefixes)
         funcs = {}
         for k in set(task.functions) | {f for f in res.functions_entered}:
             try:
@@ -151,13 +163,45 @@ def main(argv=None):
     if not tasks:
         print(f"no tasks for {prop}")
         return 3
-    jobs = [(t.module, t.name, tier, seed) for t in tasks]
-    # longest first
-    order = sorted(range(len(jobs)), key=lambda i: -getattr(tasks[i], "weight", 1))
-    jobs = [jobs[i] for i in order]
     ctx = mp.get_context("fork")
-    with ctx.Pool(min(a.jobs, len(jobs))) as pool:
-        results = pool.map(_run_task, jobs, chunksize=1)
+    split = [t for t in tasks if getattr(t, "split_depth", 0)]
+    with ctx.Pool(a.jobs) as pool:
+        fronts = pool.map(_frontier, [(t.module, t.name, t.split_depth) for t in split], chunksize=1) if split else []
+        jobs = []
+        for t in tasks:
+            if t in split:
+                leaves = fronts[split.index(t)]
+                nchunks = max(1, min(len(leaves), getattr(t, "split_chunks", 24)))
+                for i in range(nchunks):
+                    jobs.append((getattr(t, "weight", 1), (t.module, t.name, tier, seed, leaves[i::nchunks])))
+            else:
+                jobs.append((getattr(t, "weight", 1), (t.module, t.name, tier, seed)))
+        jobs.sort(key=lambda j: -j[0])
+        parts = pool.map(_run_task, [j[1] for j in jobs], chunksize=1)
+    # merge the chunks of split tasks
+    merged = {}
+    order = []
+    for r in parts:
+        k = (r["module"], r["task"])
+        if k not in merged:
+            merged[k] = r
+            order.append(k)
+            continue
+        m = merged[k]
+        if r.get("crash"):
+            m["crash"] = r["crash"]
+        m["paths"] += r["paths"]
+        for e, n in r["ends"].items():
+            m["ends"][e] = m["ends"].get(e, 0) + n
+        m["obligations"].extend(r["obligations"])
+        m["unsupported"].extend(r["unsupported"])
+        m["errors"].extend(r["errors"])
+        m["covers"] = sorted(set(m["covers"]) | set(r["covers"]))
+        m["wall"] = max(m["wall"], r["wall"])
+        m["solver_checks"] += r["solver_checks"]
+        m["solver_time"] += r["solver_time"]
+        m["functions"].update(r["functions"])
+    results = [merged[k] for k in order]
 
     from pyvc.report import finish
     return finish(prop, tier, seed, tasks, results, time.time() - t0, load_known())
